@@ -32,11 +32,12 @@ static void pr(const SpatialVec& v) { pr(v[0]); pr(v[1]); }
 static void pr(const Rotation& R) { for (int i = 0; i < 3; ++i) for (int j = 0; j < 3; ++j) pr(R[i][j]); }
 static void pr(const Transform& X) { pr(X.R()); pr(X.p()); }
 static void bar() { std::printf("| "); }
+static void pi(int x) { std::printf("%a ", (double)x); }   // integers are printed as %a too (the comparer parses every token as a hex float)
 
 static void setPose(State& s, const MobilizedBody& b, const Pose& P) { b.setQToFitTransform(s, P.X); }
 static void setVel(State& s, const MobilizedBody& b, const Pose& P) { b.setUToFitVelocity(s, P.V); }
 static void prBodies(const State& s, const SimbodyMatterSubsystem& matter, bool withR) {
-    std::printf("%d ", matter.getNumBodies());
+    pi(matter.getNumBodies());
     for (MobilizedBodyIndex i(0); i < matter.getNumBodies(); ++i) {
         const MobilizedBody& b = matter.getMobilizedBody(i);
         if (withR) pr(b.getBodyRotation(s));
@@ -84,13 +85,13 @@ static void runHC() {
     if (!onGround) setVel(s, hsBody, hsPose);
     system.realize(s, Stage::Dynamics);
     std::printf("OK "); prBodies(s, matter, false); bar();
-    std::printf("%d ", contacts.getNumBodies(set));
-    for (int i = 0; i < contacts.getNumBodies(set); ++i) std::printf("%d ", (int)contacts.getBody(set, ContactSurfaceIndex(i)).getMobilizedBodyIndex());
+    pi(contacts.getNumBodies(set));
+    for (int i = 0; i < contacts.getNumBodies(set); ++i) pi((int)contacts.getBody(set, ContactSurfaceIndex(i)).getMobilizedBodyIndex());
     bar();
     const Array_<Contact>& cs = contacts.getContacts(s, set);
-    std::printf("%d ", (int)cs.size());
+    pi((int)cs.size());
     for (int i = 0; i < (int)cs.size(); ++i) {
-        std::printf("%d %d ", (int)cs[i].getSurface1(), (int)cs[i].getSurface2());
+        pi((int)cs[i].getSurface1()); pi((int)cs[i].getSurface2());
         if (PointContact::isInstance(cs[i])) {
             const PointContact& c = static_cast<const PointContact&>(cs[i]);
             std::printf("1 "); pr(c.getDepth()); pr(c.getNormal()); pr(c.getLocation()); pr(c.getEffectiveRadiusOfCurvature());
@@ -116,7 +117,7 @@ static void runSS() {
     system.realize(s, Stage::Position);
     setVel(s, sphere, sp); if (!onGround) setVel(s, hsBody, hsPose);
     system.realize(s, Stage::Dynamics);
-    std::printf("OK "); prBodies(s, matter, true); bar(); std::printf("%d %d ", (int)sphere.getMobilizedBodyIndex(), (int)hsBody.getMobilizedBodyIndex());
+    std::printf("OK "); prBodies(s, matter, true); bar(); pi((int)sphere.getMobilizedBodyIndex()); pi((int)hsBody.getMobilizedBodyIndex());
     pr(frame); bar(); prForces(s, system, matter); bar(); pr(system.calcPotentialEnergy(s)); std::printf("\n");
 }
 
@@ -191,15 +192,15 @@ static void runCC(bool brick) {
     system.realize(s, Stage::Dynamics);
     std::printf("OK "); pr(SignificantReal); prBodies(s, matter, false); bar();
     const int nsurf = tracker.getNumSurfaces();
-    std::printf("%d ", nsurf);
+    pi(nsurf);
     for (ContactSurfaceIndex i(0); i < nsurf; ++i) {
         const ContactMaterial& m = tracker.getContactSurface(i).getMaterial();
-        std::printf("%d ", (int)tracker.getMobilizedBody(i).getMobilizedBodyIndex());
+        pi((int)tracker.getMobilizedBody(i).getMobilizedBodyIndex());
         pr(m.getStiffness()); pr(m.getStiffness23()); pr(m.getDissipation()); pr(m.getStaticFriction()); pr(m.getDynamicFriction()); pr(m.getViscousFriction());
     }
     bar();
     const ContactSnapshot& active = tracker.getActiveContacts(s);
-    std::printf("%d ", active.getNumContacts());
+    pi(active.getNumContacts());
     for (int i = 0; i < active.getNumContacts(); ++i) {
         const Contact& c = active.getContact(i);
         const ContactSurfaceIndex s1 = c.getSurface1(), s2 = c.getSurface2();
@@ -210,7 +211,7 @@ static void runCC(bool brick) {
         const SpatialVec V_GS2 = m2.findFrameVelocityInGround(s, tracker.getContactSurfaceTransform(s2));
         const SpatialVec V12 = findRelativeVelocity(X_GS1, V_GS1, X_GS2, V_GS2);
         int kind = CircularPointContact::isInstance(c) ? 1 : BrickHalfSpaceContact::isInstance(c) ? 2 : 0;
-        std::printf("%d %d %d %d %d ", (int)c.getContactId(), (int)s1, (int)s2, kind, (int)(c.getCondition() == Contact::Broken));
+        pi((int)c.getContactId()); pi((int)s1); pi((int)s2); pi(kind); pi((int)(c.getCondition() == Contact::Broken));
         pr(X_GS1); pr(c.getTransform()); pr(V12);
         if (kind == 1) { const CircularPointContact& cc = CircularPointContact::getAs(c);
             pr(cc.getDepth()); pr(cc.getNormal()); pr(cc.getOrigin()); pr(cc.getEffectiveRadius()); pr(0.0); pr(0.0); pr(0.0); pr(0.0); }
@@ -222,12 +223,12 @@ static void runCC(bool brick) {
     }
     bar();
     const int nf = compliant.getNumContactForces(s);
-    std::printf("%d ", nf);
+    pi(nf);
     for (int i = 0; i < nf; ++i) {
         const ContactForce& f = compliant.getContactForce(s, i);
-        std::printf("%d ", (int)f.getContactId()); pr(f.getContactPoint()); pr(f.getForceOnSurface2()); pr(f.getPotentialEnergy()); pr(f.getPowerDissipation());
+        pi((int)f.getContactId()); pr(f.getContactPoint()); pr(f.getForceOnSurface2()); pr(f.getPotentialEnergy()); pr(f.getPowerDissipation());
         ContactPatch patch; compliant.calcContactPatchDetailsById(s, f.getContactId(), patch);
-        std::printf("%d ", patch.getNumDetails());
+        pi(patch.getNumDetails());
         for (int d = 0; d < patch.getNumDetails(); ++d) { const ContactDetail& cd = patch.getContactDetail(d);
             pr(cd.getContactPoint()); pr(cd.getContactNormal()); pr(cd.getSlipVelocity()); pr(cd.getForceOnSurface2());
             pr(cd.getDeformation()); pr(cd.getDeformationRate()); pr(cd.getPotentialEnergy()); pr(cd.getPowerDissipation()); }
